@@ -4,7 +4,7 @@ C15 - decorated generators keep their own action context and stay transparent.
 Engine SEQ over driver schedules: 1-3 instances of generator bodies wrapped
 with eliot_friendly_generator_function are driven by every step sequence up to
 length L with <= k deviations from the default (round-robin, next(), no driver
-action); a step is (generator, op in {next, send(v), throw(E), close, throw(a BaseException subclass)}, driver
+action); a step is (generator, op in {next, send(v), throw(E), close, throw(a BaseException subclass), send(an exception instance), send(an exc_info-like tuple)}, driver
 context in {none, inside X, inside Y, a copy of the driver's Context, another thread}).  Oracle: (a) after every resumption
 current_action() inside the body *is* the top of that generator's own
 reference stack (action current in the driver when it was first resumed plus
@@ -238,7 +238,12 @@ def b_nested_catch(env, deco):
 
 
 BODIES = [b_plain, b_span, b_between, b_nested, b_catch, b_finally, b_return, b_two, b_catch_return, b_nested_catch]
-OPS = ["next", "send", "throw", "close", "throw-base"]
+OPS = ["next", "send", "throw", "close", "throw-base", "send-exception-instance", "send-exc_info-like-tuple"]
+
+
+class SentError(Exception):
+    """An exception object handed over as an ordinary value (e.g. the error of a failed job)."""
+
 
 
 def BOUNDS(tier):
@@ -266,6 +271,7 @@ def cases(unit, tier):
     G = len(cfg)
     default = [[i % G, 0, 0] for i in range(L)]
     alts = [[g, o, c] for g in range(G) for o in range(5) for c in range(5)]
+    alts += [[g, o, c] for g in range(G) for o in (5, 6) for c in (0, 1)]
     for d in range(0, k + 1):
         for pos in itertools.combinations(range(L), d):
             choices = [[a for a in alts if a != default[p]] for p in pos]
@@ -307,7 +313,7 @@ def drive(cfg, steps, decorated):
 
             def step():
                 before = current_action()
-                if not started[g] and o in (0, 1):
+                if not started[g] and o in (0, 1, 5, 6):
                     envs[g].base = before
                     started[g] = True
                 try:
@@ -316,6 +322,12 @@ def drive(cfg, steps, decorated):
                     elif o == 1:
                         # a just-started generator only accepts None
                         r = ("yield", _v(gen.send("v%d" % si if _running(gen) else None)))
+                    elif o in (5, 6):
+                        # values that merely look like errors are still values
+                        v = SentError("s%d" % si)
+                        if o == 6:
+                            v = (SentError, v, None)
+                        r = ("yield", _v(gen.send(v if _running(gen) else None)))
                     elif o in (2, 4):
                         e = Thrown("t%d" % si) if o == 2 else ThrownBase("b%d" % si)
                         thrown.append(e)
@@ -390,6 +402,10 @@ def _v(x):
         return [_v(y) for y in x]
     if isinstance(x, Thrown):
         return "Thrown(%s)" % x
+    if isinstance(x, BaseException):
+        return "%s(%s)" % (type(x).__name__, x)
+    if isinstance(x, type):
+        return "class:" + x.__name__
     return x
 
 
